@@ -106,8 +106,8 @@ struct E6 : Engine {
 		J ch = J::arr(); int nch = r.below(3);
 		for(int i=0;i<nch;i++){ J c = J::obj(); unsigned x = r.below(3);
 			if(x == 0){ c["kind"] = "dtimer"; c["ms"] = (int)r.below(30); c["cancel_after_ms"] = r.below(2) ? (int)r.below(40) : -1; }
-			else if(x == 1){ c["kind"] = "read"; c["want"] = 1 + (int)r.below(3000); c["feed"] = (int)r.below(4000); c["chunk"] = 1 + (int)r.below(700); c["close_peer"] = r.below(3) == 0; c["cancel_after_ms"] = r.below(4) == 0 ? (int)r.below(20) : -1; }
-			else { c["kind"] = "write"; c["len"] = 1 + (int)r.below(20000); c["cap"] = 1 + (int)r.below(3000); c["drain"] = 1 + (int)r.below(2000); c["cancel_after_ms"] = r.below(5) == 0 ? (int)r.below(20) : -1; }
+			else if(x == 1){ c["kind"] = "read"; c["want"] = 1 + (int)r.below(3000); c["feed"] = (int)r.below(4000); c["chunk"] = 1 + (int)r.below(700); c["close_peer"] = r.below(3) == 0; c["cancel_after_ms"] = r.below(3) == 0 ? (int)r.below(20) : -1; c["close"] = (int)r.below(2); }
+			else { c["kind"] = "write"; c["len"] = 1 + (int)r.below(20000); c["cap"] = 1 + (int)r.below(3000); c["drain"] = 1 + (int)r.below(2000); c["cancel_after_ms"] = r.below(4) == 0 ? (int)r.below(20) : -1; c["close"] = (int)r.below(2); }
 			ch.push(c); }
 		p["chains"] = ch;
 		p["p_short_read"] = r.below(2) ? (int)r.below(400) : 0; p["p_short_write"] = r.below(2) ? (int)r.below(400) : 0; p["p_spurious"] = r.below(4) == 0 ? (int)r.below(100) : 0;
@@ -161,7 +161,7 @@ struct E6 : Engine {
 	}
 
 	// ---------------------------------------------------------------- event loop
-	struct Chain { std::string kind; std::unique_ptr<aio::stream_socket> sock; std::unique_ptr<aio::deadline_timer> timer, canceler; int hid = -1; int peer = -1; std::string buf; std::string sent; size_t fed = 0, feed = 0, chunk = 1, drain = 1; bool close_peer = false; std::string drained; int cancel_after = -1; bool peer_closed = false; };
+	struct Chain { bool close_instead = false, closed = false; std::string kind; std::unique_ptr<aio::stream_socket> sock; std::unique_ptr<aio::deadline_timer> timer, canceler; int hid = -1; int peer = -1; std::string buf; std::string sent; size_t fed = 0, feed = 0, chunk = 1, drain = 1; bool close_peer = false; std::string drained; int cancel_after = -1; bool peer_closed = false; };
 
 	void run_loop(const J &plan,RunResult &res,World &w){
 		int rt = (int)(((plan.geti("reactor") % 3) + 3) % 3); int reactor_type = rt == 0 ? aio::reactor::use_epoll : rt == 1 ? aio::reactor::use_poll : aio::reactor::use_select;
@@ -186,7 +186,7 @@ struct E6 : Engine {
 				res.counters["waits_cancelled_before_run"] = (long long)pre_cancelled.size(); }
 			// chains are set up on the loop thread (device objects are not thread safe)
 			for(size_t i=0;i<chs.size() && i<4;i++){
-				const J &c = chs.a[i]; auto ch = std::unique_ptr<Chain>(new Chain); ch->kind = c.gets("kind"); ch->cancel_after = (int)c.geti("cancel_after_ms",-1);
+				const J &c = chs.a[i]; auto ch = std::unique_ptr<Chain>(new Chain); ch->kind = c.gets("kind"); ch->cancel_after = (int)c.geti("cancel_after_ms",-1); ch->close_instead = c.geti("close") != 0;
 				Chain *cp = ch.get();
 				if(ch->kind == "dtimer"){
 					int ms = (int)std::max<int64_t>(0,std::min<int64_t>(c.geti("ms"),100000)); ch->hid = w.add("dtimer");
@@ -202,7 +202,7 @@ struct E6 : Engine {
 					else { size_t len = (size_t)std::max<int64_t>(1,std::min<int64_t>(c.geti("len",1),400000)); ch->buf.resize(len); for(size_t j=0;j<len;j++) ch->buf[j] = (char)((j*13+i) & 0xff); ch->drain = (size_t)std::max<int64_t>(1,c.geti("drain",1));
 						ch->hid = w.add("awrite"); w.h[ch->hid].want = len;
 						srv.post([cp]{ cp->sock->async_write(aio::buffer(cp->buf.data(),cp->buf.size()),Fn(cp->hid)); }); }
-					if(ch->cancel_after >= 0){ srv.post([&srv,cp]{ cp->canceler.reset(new aio::deadline_timer(srv)); cp->canceler->expires_from_now(ptime::milliseconds(cp->cancel_after)); cp->canceler->async_wait([cp](booster::system::error_code const &){ cp->sock->cancel(); }); }); }
+					if(ch->cancel_after >= 0){ srv.post([&srv,cp]{ cp->canceler.reset(new aio::deadline_timer(srv)); cp->canceler->expires_from_now(ptime::milliseconds(cp->cancel_after)); cp->canceler->async_wait([cp](booster::system::error_code const &){ if(cp->close_instead){ booster::system::error_code e; cp->sock->close(e); cp->closed = true; } else cp->sock->cancel(); }); }); }   // closing the device while its operation is pending must complete the operation too
 				}
 				chains.push_back(std::move(ch));
 			}
@@ -249,7 +249,7 @@ struct E6 : Engine {
 				for(int round=0;round<4000 && res.ok;round++){   // each round lets an in-flight operation consume at least one more byte: terminates
 					bool all = true; for(auto &r:w.h) if(!r.count) all = false; if(all) break;
 					for(auto &pr:pairs){ int fd = pr.first; aio::io_service *sp = &srv; srv.post([sp,fd]{ sp->cancel_io_events(fd); }); }
-					for(auto &ch:chains) if(ch->sock){ Chain *cp = ch.get(); srv.post([cp]{ if(W->h[cp->hid].count == 0) cp->sock->cancel(); }); }
+					for(auto &ch:chains) if(ch->sock){ Chain *cp = ch.get(); srv.post([cp]{ if(W->h[cp->hid].count == 0 && !cp->closed) cp->sock->cancel(); }); }
 					if(!roundtrip()) res.fail("handler-never-invoked","a posted handler was never invoked by a running loop");
 					if(round == 1) res.counters["extra_cancel_rounds"] = res.counters.geti("extra_cancel_rounds") + 1;
 				}
